@@ -16,7 +16,9 @@ From V.gen Require Consts.
 From V.common Require Import Wire Varint Protobuf.
 From V.C18 Require Model.
 From V.C03 Require Model.
-From V.C19 Require Import Formats Model Utf8Proofs Proofs MsProofs.
+From V.C19 Require Import Formats Model Utf8Proofs Proofs MsProofs Net NetProofs.
+From V.C19 Require Sites.
+From V.gen Require DecodeSites.
 Import ListNotations.
 Open Scope N_scope.
 
@@ -390,6 +392,116 @@ Theorem C19_roundtrip_webrtc_message :
 Proof. exact webrtc_roundtrip. Qed.
 Print Assumptions C19_roundtrip_webrtc_message.
 
+(* ---------------------------------------------------------------- WebSocket adapter (BufferedStream over tungstenite) *)
+(* reading terminates: the fuel |input|+1 is never the reason the reader stops *)
+Theorem C19_ws_total :
+  forall role b f, (length b < f)%nat -> ws_read f role None b [] = ws_run role b.
+Proof. exact ws_run_fuel_irrelevant. Qed.
+Print Assumptions C19_ws_total.
+
+(* what is handed to the Noise layer never exceeds what arrived *)
+Theorem C19_ws_delivered_bounded :
+  forall role b, (length (ws_run role b) <= length b)%nat.
+Proof. exact ws_run_size. Qed.
+Print Assumptions C19_ws_delivered_bounded.
+
+(* a frame header announcing more than the frame limit ends the stream before any payload byte
+   is awaited (the limit is tungstenite's default 16 MiB: litep2p configures none) *)
+Theorem C19_ws_oversized_checked_first :
+  forall f role acc b out h r,
+  ws_header b = Some (h, r) -> WS_MAX_FRAME < h_len h -> ws_read (S f) role acc b out = out.
+Proof. exact ws_oversized_first. Qed.
+Print Assumptions C19_ws_oversized_checked_first.
+
+(* whatever the adapter writes (one Binary frame per write; a client masks with ANY 4-byte key),
+   the adapter of the other role reads back *)
+Theorem C19_ws_roundtrip :
+  forall chunks mask,
+  mask_ok mask -> Forall (fun c => blen c <= WS_MAX_FRAME) chunks ->
+  ws_run (reader_of mask) (concat (map (ws_frame mask) chunks)) = concat chunks.
+Proof. exact ws_run_roundtrip. Qed.
+Print Assumptions C19_ws_roundtrip.
+
+(* ---------------------------------------------------------------- Noise XX handshake *)
+(* a handshake message is cut out of the stream exactly and is at most 65535 bytes long: the
+   buffers of read_handshake_message are bounded by the width of the length prefix *)
+Theorem C19_noise_frame_bounded :
+  forall b m r, bytes_ok b = true -> hs_frame b = Some (m, r) ->
+  blen m <= DecodeSites.SNOW_MAXMSGLEN /\ exists h l, b = h :: l :: m ++ r /\ blen m = h * 256 + l.
+Proof. exact hs_frame_spec. Qed.
+Print Assumptions C19_noise_frame_bounded.
+
+Theorem C19_noise_raw_rejected :
+  forall role b, noise_raw role b = 1 \/ noise_raw role b = 2.
+Proof. exact noise_raw_rejects. Qed.
+Print Assumptions C19_noise_raw_rejected.
+
+Theorem C19_noise_identity_ok :
+  forall o p t, noise_identity_result o p = 0 :: t ->
+  exists m k pk sg,
+    dec_noise p = Some m /\ n_key m = Some k /\ remote_key o k = Some pk /\ n_sig m = Some sg /\
+    orc_flag o 7 (pk ++ sg) = true /\ t = blen (peer_of_ed25519 pk) :: peer_of_ed25519 pk.
+Proof. exact noise_identity_ok. Qed.
+Print Assumptions C19_noise_identity_ok.
+
+Theorem C19_noise_length_lie_rejected :
+  forall role o p d, d <> noise_msg_len role p ->
+  noise_active role o p (Some d) = [1] \/ noise_active role o p (Some d) = [2].
+Proof. exact noise_length_lie_rejected. Qed.
+Print Assumptions C19_noise_length_lie_rejected.
+
+(* ---------------------------------------------------------------- mDNS *)
+Theorem C19_mdns_response_sound :
+  forall user o answers extra a, In a (mdns_response user o answers extra) ->
+  exists x vals v, In x extra /\ mx_txt x = Some vals /\ In v vals /\ orc_find o 6 v = Some (1 :: a).
+Proof. exact mdns_response_sound. Qed.
+Print Assumptions C19_mdns_response_sound.
+
+Theorem C19_mdns_response_count :
+  forall user o answers extra, (length (mdns_response user o answers extra) <= txt_count extra)%nat.
+Proof. exact mdns_response_count. Qed.
+Print Assumptions C19_mdns_response_count.
+
+Theorem C19_mdns_own_name_ignored :
+  forall user o answers extra,
+  Forall (fun a => names_eqb (ma_name a) SERVICE_NAME = false \/ ma_ptr a = None \/ ma_ptr a = Some [user]) answers ->
+  nlist_eqb user user = true -> mdns_response user o answers extra = [].
+Proof. exact mdns_own_name_ignored. Qed.
+Print Assumptions C19_mdns_own_name_ignored.
+
+(* ---------------------------------------------------------------- inventory ties (generated from the Rust source) *)
+Theorem C19_sites_match :
+  map (fun e => fst (fst e)) Sites.table = DecodeSites.sites.
+Proof. exact Sites.sites_match. Qed.
+Print Assumptions C19_sites_match.
+
+Theorem C19_sites_kinds_ok : forallb Sites.entry_ok Sites.table = true.
+Proof. exact Sites.table_kinds_ok. Qed.
+Print Assumptions C19_sites_kinds_ok.
+
+Theorem C19_codecs_match : map fst Sites.codec_table = DecodeSites.codecs.
+Proof. exact Sites.codecs_match. Qed.
+Print Assumptions C19_codecs_match.
+
+Theorem C19_codecs_all_bounded : forallb Sites.codec_bounded DecodeSites.codecs = true.
+Proof. exact Sites.codecs_all_bounded. Qed.
+Print Assumptions C19_codecs_all_bounded.
+
+Theorem C19_third_party_limits :
+  Model.YAMUX_DEFAULT_CREDIT = DecodeSites.YAMUX_DEFAULT_CREDIT /\ DecodeSites.SNOW_MAXMSGLEN = 65535 /\
+  WS_MAX_FRAME = 16777216 /\ WS_MAX_MESSAGE = 67108864 /\
+  Protobuf.RECURSION_LIMIT = DecodeSites.PROST_RECURSION_LIMIT.
+Proof. repeat split; reflexivity. Qed.
+
+(* the multiaddr protocol table of the model lists exactly the protocol codes of the vendored crate *)
+Theorem C19_maddr_codes_match :
+  forallb (fun c => Sites.mem c DecodeSites.maddr_codes) (map fst proto_table) &&
+  forallb (fun c => Sites.mem c (map fst proto_table)) DecodeSites.maddr_codes &&
+  Nat.eqb (length proto_table) (length DecodeSites.maddr_codes) = true.
+Proof. exact Sites.maddr_codes_match. Qed.
+Print Assumptions C19_maddr_codes_match.
+Print Assumptions C19_third_party_limits.
+
 (* ---------------------------------------------------------------- yamux (third party): known finding class 1 *)
 (* intended: the credit of a stream opened by WindowUpdate|SYN is computed for every u32 credit.
    Refuted on yamux 0.13.10 (`credit + DEFAULT_CREDIT` in u32): with overflow checks compiled in the
@@ -451,3 +563,30 @@ Example C19_ex_utf8 :
   utf8_ok [237; 159; 191] = true /\ utf8_ok [237; 160; 128] = false /\   (* U+D7FF yes, surrogate U+D800 no *)
   utf8_ok [192; 128] = false /\ utf8_ok [244; 143; 191; 191] = true /\ utf8_ok [244; 144; 128; 128] = false.
 Proof. repeat split; vm_compute; reflexivity. Qed.
+
+(* a masked "hi" from a client, then a frame announcing 16 MiB + 1: "hi" is delivered, nothing else *)
+Example C19_ex_ws :
+  ws_run WsServer ([130; 130; 1; 2; 3; 4; 105; 107] ++ [130; 255; 0; 0; 0; 0; 1; 0; 0; 1; 9; 9; 9; 9; 7; 7]) = [104; 105] /\
+  ws_run WsServer (ws_frame (Some [9; 8; 7; 6]) [104; 105]) = [104; 105] /\
+  ws_run WsClient [130; 130; 1; 2; 3; 4; 105; 107] = [].
+Proof. vm_compute. repeat split; reflexivity. Qed.
+
+(* listener: a 32-byte first message is accepted, the third one cannot decrypt; 31 bytes are refused;
+   a message shorter than announced is an I/O error *)
+Example C19_ex_noise_raw :
+  noise_raw 1 ([0; 32] ++ repeat 7 32 ++ [0; 48] ++ repeat 7 48) = 1 /\
+  noise_raw 1 ([0; 31] ++ repeat 7 31) = 1 /\ noise_raw 1 ([0; 32] ++ repeat 7 31) = 2 /\ noise_raw 0 [255] = 2.
+Proof. vm_compute. repeat split; reflexivity. Qed.
+
+(* a response whose only PTR answer points at "peer": the TXT value of the matching record is reported *)
+Example C19_ex_mdns :
+  mdns_response [117] [(6, [47], [1; 4; 1; 2; 3; 4])]
+    [mkMdAns SERVICE_NAME (Some [[112]])] [mkMdExtra [[112]] (Some [[47]; [120]]); mkMdExtra [[113]] (Some [[47]])]
+  = [[4; 1; 2; 3; 4]].
+Proof. vm_compute. reflexivity. Qed.
+
+(* the inventory: how many sites of each class *)
+Example C19_ex_inventory :
+  (Sites.count Sites.M, Sites.count Sites.D, Sites.count Sites.H, Sites.count Sites.X, Sites.count Sites.NW)
+  = (125, 2, 19, 16, 77)%nat.
+Proof. vm_compute. reflexivity. Qed.
